@@ -68,6 +68,36 @@ func main() {
 		fmt.Println(string(b))
 	case "dump":
 		dump(*repo, *verbose)
+	case "all":
+		// development aid: one load, every property; prints the violated obligation keys per property
+		ctx, err := loadAll(*repo, "")
+		if err != nil {
+			fmt.Println("LOAD ERROR:", err)
+			os.Exit(2)
+		}
+		for _, id := range props.IDs() {
+			pr := props.Get(id)
+			ctx.C = an.NewCollector(ctx.P)
+			obs := pr.Build(ctx)
+			var bad []string
+			for _, f := range pr.Floors {
+				n := 0
+				for _, o := range obs {
+					if f.Match(o) {
+						n++
+					}
+				}
+				if n < f.Min {
+					bad = append(bad, "FLOOR:"+f.Desc)
+				}
+			}
+			for _, o := range obs {
+				if o.Status != "discharged" {
+					bad = append(bad, o.Key)
+				}
+			}
+			fmt.Printf("%s %d %s\n", id, len(bad), strings.Join(bad, " ;; "))
+		}
 	case "check":
 		os.Exit(check(*prop, *tier, *repo, *verif, ""))
 	case "replay":
